@@ -88,7 +88,7 @@ def check_unit(ctx, rule, unit_name, fn, results, eng, table, is_fatal_fn):
     may_upgrade = unit_name in table["may_upgrade_soft_child_error"]
     ext_ok = unit_name in table["external_result_without_rewind"]
     rewind_ok = unit_name in table["rewinds_on_success"]
-    viol = {"S": [], "F": [], "S'": [], "M": [], "B": [], "R": [], "L": [], "D": []}
+    viol = {"S": [], "F": [], "S'": [], "M": [], "B": [], "R": [], "L": [], "D": [], "P": []}
     unit_parses_children = any(ts.get("parsed", 0) > 0 for _v, ts in results if not ts.get("cut"))
     l_paths = 0
     n_cut = 0
@@ -132,6 +132,14 @@ def check_unit(ctx, rule, unit_name, fn, results, eng, table, is_fatal_fn):
             viol["S"].append("returns the result of user code after consuming input without restoring the position")
         if kind == "unknown" and ts["pos"] != tsm.ENTRY and not ext_ok:
             viol["S"].append("returns a value the analysis cannot classify after consuming input")
+        # P: a fatal error is reported where it was found.  The reader's position when a fatal error reaches
+        # the top is the position of the diagnostic: a combinator that moves the input back and then returns an
+        # error that is not known to be soft makes a syntax error point at the start of the construct
+        if kind == "err" and soft != tsm.SOFT and ts.get("rewound_after_child_error") and ts["pos"] == tsm.ENTRY \
+                and e[0] == "errobj" and ts["origin"].get(e[1], ("",))[0] == "child":
+            viol["P"].append("puts the input position back (line %s) and then returns a child's error that is %s: a fatal "
+                             "error is reported at the start of the construct instead of where it was found"
+                             % (ts["rewound_after_child_error"], "fatal" if soft == tsm.FATAL else "not known to be soft"))
         # L: the soft failure of a later child is returned only after the position was put back
         if kind == "err" and soft != tsm.FATAL and children and e[0] == "errobj" and origin_root(ts, e[1]) == children[-1] \
                 and ts.get("parsed", 0) > 1:
